@@ -8,6 +8,7 @@ import (
 	"os"
 	"sort"
 	"strings"
+	"sync"
 	"time"
 )
 
@@ -211,6 +212,25 @@ func MaybeReplay() {
 		if runners[v.Kind] == nil {
 			fmt.Println("no single-case runner for this kind; re-run the check to reproduce")
 			os.Exit(2)
+		}
+		if nc, _ := d["needs_concurrency"].(bool); nc {
+			// the recorded case only fails while the same call runs on other goroutines
+			if solo := Exec(v.Kind, d); solo != "" {
+				ReplayResult(v, solo)
+			}
+			var mu sync.Mutex
+			last := ""
+			f, total := ConcurrentReruns(func() bool {
+				m := Exec(v.Kind, d)
+				if m != "" {
+					mu.Lock()
+					last = m
+					mu.Unlock()
+				}
+				return m != ""
+			})
+			fmt.Printf("  concurrent re-runs: %d of %d failed\n", f, total)
+			ReplayResult(v, last)
 		}
 		ReplayResult(v, Exec(v.Kind, d))
 	}
